@@ -80,7 +80,9 @@ def gen(rng, tier):
             for pw in (range(16) if not quick else [(dr * 5 + region + k * 4) % 16 for k in range(4)]):
                 ctls = range(8) if not quick else [r.below(8)]
                 for ctl in ctls:
-                    masks = [0xFFFF, 0x0007, 0x0000, 0x0001, 0xFF00, r.below(1 << 16)] if not quick else [r.choice([0xFFFF, 7, 0, 1, 0xFF00, r.below(1 << 16)])]
+                    # thorough: every DR x power x ChMaskCntl with two of the six mask patterns each (all six over the grid)
+                    allm = [0xFFFF, 0x0007, 0x0000, 0x0001, 0xFF00, r.below(1 << 16)]
+                    masks = [allm[(dr + pw + ctl) % 6], allm[(dr + 2 * pw + ctl + 3) % 6]] if not quick else [r.choice([0xFFFF, 7, 0, 1, 0xFF00, r.below(1 << 16)])]
                     for m in masks:
                         lines.append(command_case(r, region, machist.link_adr(dr, pw, m, ctl), r.chance(1, 4)))
         for _ in range(40 if quick else 600):   # blocks
